@@ -19,6 +19,8 @@ OBSERVERS = ('Container.get_volume', 'Container.get_concentration')
 
 
 def run(ctx):
+    from .configtime import config_file_precedence as _cfgfile
+    _cfgfile(ctx, 'C18.R4')
     # per-well amounts gathered with numpy.vectorize need an explicit result type: without it the type of the first
     # well decides, and an empty first well (int 0) truncates every later amount to whole storage units
     from .c15 import t5 as _vectorize_dtype
